@@ -5,7 +5,7 @@
 //! a time on one thread, so the monitors' own state can never be the race.
 
 use std::alloc::{GlobalAlloc, Layout, System};
-use std::cell::UnsafeCell;
+use std::cell::{Cell, UnsafeCell};
 use std::panic::{catch_unwind, AssertUnwindSafe};
 use std::sync::atomic::{AtomicBool, AtomicU64, AtomicUsize, Ordering::Relaxed};
 use std::sync::Mutex;
@@ -62,23 +62,53 @@ fn current_case_copy() -> Vec<u8> {
 
 pub struct CountingAlloc;
 
-static LIVE: AtomicUsize = AtomicUsize::new(0);
-static PEAK: AtomicUsize = AtomicUsize::new(0);
-static COUNT: AtomicU64 = AtomicU64::new(0);
-static MAXREQ: AtomicUsize = AtomicUsize::new(0);
+// The accounting is per thread and only active inside an `AllocScope` of that
+// thread, so allocations of other threads (watchdog, runtime start-up) can
+// never be attributed to a measured call.  The cells are const-initialised
+// and have no destructor, hence touching them inside the allocator is safe.
+thread_local! {
+    static ON: Cell<bool> = const { Cell::new(false) };
+    static CUR: Cell<isize> = const { Cell::new(0) };
+    static PEAK: Cell<isize> = const { Cell::new(0) };
+    static COUNT: Cell<u64> = const { Cell::new(0) };
+    static MAXREQ: Cell<usize> = const { Cell::new(0) };
+}
 /// Requests above this size are refused (null), after naming the current case.
 pub const ALLOC_HARD_CAP: usize = 8 << 30;
 
 #[inline]
+fn on() -> bool {
+    ON.try_with(|c| c.get()).unwrap_or(false)
+}
+
+#[inline]
 fn on_alloc(size: usize) {
-    let l = LIVE.fetch_add(size, Relaxed) + size;
-    if l > PEAK.load(Relaxed) {
-        PEAK.store(l, Relaxed);
+    if !on() {
+        return;
     }
-    COUNT.fetch_add(1, Relaxed);
-    if size > MAXREQ.load(Relaxed) {
-        MAXREQ.store(size, Relaxed);
+    let _ = CUR.try_with(|c| {
+        let v = c.get() + size as isize;
+        c.set(v);
+        let _ = PEAK.try_with(|p| {
+            if v > p.get() {
+                p.set(v)
+            }
+        });
+    });
+    let _ = COUNT.try_with(|c| c.set(c.get() + 1));
+    let _ = MAXREQ.try_with(|c| {
+        if size > c.get() {
+            c.set(size)
+        }
+    });
+}
+
+#[inline]
+fn on_dealloc(size: usize) {
+    if !on() {
+        return;
     }
+    let _ = CUR.try_with(|c| c.set(c.get() - size as isize));
 }
 
 fn refuse(size: usize) {
@@ -136,7 +166,7 @@ unsafe impl GlobalAlloc for CountingAlloc {
         p
     }
     unsafe fn dealloc(&self, p: *mut u8, l: Layout) {
-        LIVE.fetch_sub(l.size(), Relaxed);
+        on_dealloc(l.size());
         System.dealloc(p, l)
     }
     unsafe fn realloc(&self, p: *mut u8, l: Layout, new: usize) -> *mut u8 {
@@ -146,7 +176,7 @@ unsafe impl GlobalAlloc for CountingAlloc {
         }
         let q = System.realloc(p, l, new);
         if !q.is_null() {
-            LIVE.fetch_sub(l.size(), Relaxed);
+            on_dealloc(l.size());
             on_alloc(new)
         }
         q
@@ -164,25 +194,27 @@ pub struct AllocReading {
 }
 
 pub struct AllocScope {
-    base: usize,
+    _private: (),
 }
 
 impl AllocScope {
     #[inline]
     pub fn begin() -> AllocScope {
-        let base = LIVE.load(Relaxed);
-        PEAK.store(base, Relaxed);
-        COUNT.store(0, Relaxed);
-        MAXREQ.store(0, Relaxed);
-        AllocScope { base }
+        CUR.with(|c| c.set(0));
+        PEAK.with(|c| c.set(0));
+        COUNT.with(|c| c.set(0));
+        MAXREQ.with(|c| c.set(0));
+        ON.with(|c| c.set(true));
+        AllocScope { _private: () }
     }
     #[inline]
     pub fn end(self) -> AllocReading {
+        ON.with(|c| c.set(false));
         AllocReading {
-            peak: PEAK.load(Relaxed).saturating_sub(self.base),
-            count: COUNT.load(Relaxed),
-            max_request: MAXREQ.load(Relaxed),
-            retained: LIVE.load(Relaxed) as isize - self.base as isize,
+            peak: PEAK.with(|c| c.get()).max(0) as usize,
+            count: COUNT.with(|c| c.get()),
+            max_request: MAXREQ.with(|c| c.get()),
+            retained: CUR.with(|c| c.get()),
         }
     }
 }
